@@ -144,6 +144,58 @@ def drive(kind, codec, s, sizes, polls, eof_late, T, spec):
     return out, final, problems
 
 
+def drive_clocked(kind, codec, s, sizes, arrivals, eof_tick, T, spec):
+    """The double owns a clock that ticks with every read() (streams._Clocked). -> (outputs, final, problems)"""
+    st = (streams.ClockSeekable if kind == 'clock-seekable' else streams.ClockPipe)(s, sizes, arrivals, eof_tick)
+    out, problems = [], []
+    final = None
+    budget = 20 * len(s) + 50 + 3 * (max(list(arrivals) + [eof_tick]) + 2)
+    try:
+        it = iter(lib.DEC[codec].StreamingDecoder(st, asn1Spec=spec) if spec is not None else lib.DEC[codec].StreamingDecoder(st))
+        steps = 0
+        while True:
+            steps += 1
+            if steps > budget:
+                final = 'livelock'
+                break
+            st.c.reset_step()
+            try:
+                x = next(it)
+            except StopIteration:
+                final = 'stop'
+                break
+            if isinstance(x, error.SubstrateUnderrunError):
+                if not st.c.starved:
+                    problems.append(('dishonest-underrun', 'underrun reported although no read found data missing'))
+                if st.eof and not st.pending and steps > budget - 5:
+                    problems.append(('underrun-after-end', 'underruns keep coming after the end was signalled'))
+            elif x is None or not isinstance(x, _base.Asn1Item):
+                problems.append(('yielded-non-value', 'decoder yielded %r' % (x,)))
+            else:
+                out.append(snap(T, x, spec))
+    except error.PyAsn1Error as ex:
+        final = lib.Out('err', exc=ex).errclass()
+    except Exception as ex:
+        final = 'leak:' + type(ex).__name__ + '@' + harness.exc_sig(ex).split('@')[-1]
+    return out, final, problems
+
+
+def clocked_schedules(s, d, count):
+    """(sizes, arrival ticks, eof tick): cuts inside the stream, arrival ticks close together so that bursts land between
+    consecutive reads."""
+    n = len(s)
+    if n < 2:
+        return
+    for _ in range(count):
+        cuts = sorted(set(d.int(1, n - 1) for _ in range(d.int(1, 4))))
+        sizes = streams.cuts_to_sizes(n, cuts)
+        t, arrivals = 0, []
+        for i in range(len(sizes)):
+            t += 0 if i == 0 else d.pick([1, 1, 2, 2, 3, 4, 6])
+            arrivals.append(t)
+        yield sizes, arrivals, t + d.pick([0, 1, 2, 3])
+
+
 def boundaries(s):
     """Positions just around structural boundaries (identifier / length / contents / EOO starts and ends)."""
     pts = set()
@@ -209,11 +261,17 @@ def run_case(case, col=None, sched_iter=None):
 
     sch = build.schema(T)
     specs = [('guided', sch)] + ([('schemaless', None)] if selfdesc(T) else [])
+    clocked, clock_kinds = list(case.get('clocked') or []), ('clock-pipe', 'clock-seekable')
     if case.get('schedule') is not None:
         sc = case['schedule']
-        scheds = [(sc['sizes'], tuple(sc['polls']), sc['eof_late'])]
         specs = [x for x in specs if x[0] == sc['spec']]
-        doubles = [sc['double']]
+        if sc.get('clocked'):
+            scheds, doubles = [], []
+            clocked, clock_kinds = [sc['clocked']], [sc['double']]
+        else:
+            scheds = [(sc['sizes'], tuple(sc['polls']), sc['eof_late'])]
+            doubles = [sc['double']]
+            clocked = []
     else:
         scheds = list(sched_iter)
         doubles = DOUBLES
@@ -241,6 +299,22 @@ def run_case(case, col=None, sched_iter=None):
                       sig='%s/%s' % (final, ref_final), obs=obs)
                 for pk, pm in problems:
                     F(sub, pk, '%s | chunks=%s polls=%s eof_late=%s s=%s' % (pm, sizes[:20], list(polls), eof_late, s.hex()[:100]), obs=obs)
+        # arrival schedules on the reader's clock
+        for sizes, arrivals, eof_tick in clocked:
+            for kind in clock_kinds:
+                obs = {'clocked': [sizes, arrivals, eof_tick], 'double': kind, 'spec': sname}
+                out, final, problems = drive_clocked(kind, codec, s, sizes, arrivals, eof_tick, T, spec)
+                if col is not None:
+                    col.case(s + repr((sizes, kind, sname, arrivals, eof_tick)).encode(), inside_element(s, sizes),
+                             ['double:' + kind, sname, 'chunks=%d' % min(len(sizes), 6)],
+                             sample={'type': ir.show_type(T), 'stream': s.hex()[:120], 'chunk_sizes': sizes[:40], 'arrival_ticks': arrivals,
+                                     'eof_tick': eof_tick, 'double': kind, 'guided': spec is not None})
+                sub = '%s-%s' % (kind, sname)
+                if out != ref_out or final != ref_final:
+                    F(sub, 'differs', 'clocked run gives %d object(s) then %s; complete input gives %d then %s | chunks=%s arrive at read ticks %s, end at %d s=%s'
+                      % (len(out), final, len(ref_out), ref_final, sizes[:20], arrivals, eof_tick, s.hex()[:100]), sig='%s/%s' % (final, ref_final), obs=obs)
+                for pk, pm in problems:
+                    F(sub, pk, '%s | chunks=%s arrive at read ticks %s, end at %d s=%s' % (pm, sizes[:20], arrivals, eof_tick, s.hex()[:100]), obs=obs)
     return fails
 
 
@@ -298,7 +372,8 @@ def run_shard(desc, seed, tier, col):
             codec = 'DER'
         elif set(ev['forms']) == {'CER'}:
             codec = 'CER'
-        return {'T': ev['T'], 's': s, 'codec': codec, 'encs': ev['encs'], 'long': d.pct(8)}, list(schedules(s, tier, d))
+        return ({'T': ev['T'], 's': s, 'codec': codec, 'encs': ev['encs'], 'long': d.pct(8),
+                 'clocked': [list(x) for x in clocked_schedules(s, d, 40 if tier == 'quick' else 60)]}, list(schedules(s, tier, d)))
 
     def body(x):
         case, scheds = x
